@@ -48,7 +48,12 @@ def run_one(harness, func, timeout, env=None, per_path=None):
     elif ': error:' in l:
       status = 'refuted'
       msg = l.split(': error: ', 1)[1]
-      m = re.search(r'when calling %s\((.*?)\)(?: \(which returns .*\))?\s*$' % re.escape(func), msg)
+      if 'when calling' not in msg:      # multi-line exception text: the call is on a later line of the output
+        tail = out[out.index(l):]
+        k = tail.find('when calling %s(' % func)
+        if k >= 0:
+          msg = msg + ' ... ' + tail[k:].splitlines()[0]
+      m = re.search(r'when calling %s\((.*?)\)(?: with crosshair\.patch_to_return\(.*\))?(?: \(which returns .*\))?\s*$' % re.escape(func), msg)
       if m:
         args = m.group(1)
       break
